@@ -597,6 +597,7 @@ func runFrame(fr *frame) {
 
 	w := fr.i.w
 	for {
+		w.cur = fr
 		nonPhis := executePhis(fr)
 		for _, instr := range nonPhis {
 			w.steps++
